@@ -89,6 +89,35 @@ class HookFault(Exception):
     pass
 
 
+class Hang(BaseException):
+    """a call on the real objects did not return (e.g. the loop check walking a parent cycle);
+    BaseException so that bigtree's own `except Exception` roll-back code cannot swallow it"""
+
+
+class _Watchdog:
+    """per-history alarm: a history that does not finish within `secs` raises Hang inside the call"""
+
+    def __init__(self, secs=5.0):
+        self.secs = secs
+
+    def __enter__(self):
+        import signal, threading
+        self.active = threading.current_thread() is threading.main_thread() and hasattr(signal, "setitimer")
+        if self.active:
+            def _raise(signum, frame):
+                raise Hang()
+            self.old = signal.signal(signal.SIGALRM, _raise)
+            signal.setitimer(signal.ITIMER_REAL, self.secs)
+        return self
+
+    def __exit__(self, *a):
+        if self.active:
+            import signal
+            signal.setitimer(signal.ITIMER_REAL, 0)
+            signal.signal(signal.SIGALRM, self.old)
+        return False
+
+
 _ARM = {"kind": None, "point": None}
 _CLS = {}
 
@@ -234,12 +263,15 @@ def impl_history(data, assertions=None) -> str:
     assertions: None = data["asrt"]; False = checks switched off in this process for the call;
     True = the process setting (on unless BIGTREE_CONF_ASSERTIONS="" was exported)."""
     on = bool(data.get("asrt", 1)) if assertions is None else bool(assertions)
-    with _Assertions(on):
-        w = World(data["n"])
-        parts = []
-        for op in data["ops"]:
-            ok = w.apply(op)
-            parts.append(("ok " if ok else "rej ") + w.dump())
+    parts = []
+    try:
+        with _Assertions(on), _Watchdog():
+            w = World(data["n"])
+            for op in data["ops"]:
+                ok = w.apply(op)
+                parts.append(("ok " if ok else "rej ") + w.dump())
+    except Hang:
+        parts.append("hang")          # never produced by the model: reported as a disagreement
     return " ; ".join(parts) if parts else "-"
 
 
@@ -253,19 +285,22 @@ def oracle_c02(data, assertions=None):
     child list in order) equals the snapshot taken just before the call."""
     on = bool(data.get("asrt", 1)) if assertions is None else bool(assertions)
     msgs = []
-    with _Assertions(on):
-        w = World(data["n"])
-        for k, op in enumerate(data["ops"]):
-            before_raw = w.raw()
-            before = w.snapshot()
-            ok = w.apply(op)
-            if not ok:
-                after_raw = w.raw()
-                same = all(a[0] is b[0] and len(a[1]) == len(b[1]) and all(x is y for x, y in zip(a[1], b[1]))
-                           for a, b in zip(before_raw, after_raw))
-                if not same:
-                    msgs.append(f"op#{k} {op_token(op)} raised but changed the store: {before} -> {w.snapshot()}")
-                    break
+    try:
+        with _Assertions(on), _Watchdog():
+            w = World(data["n"])
+            for k, op in enumerate(data["ops"]):
+                before_raw = w.raw()
+                before = w.snapshot()
+                ok = w.apply(op)
+                if not ok:
+                    after_raw = w.raw()
+                    same = all(a[0] is b[0] and len(a[1]) == len(b[1]) and all(x is y for x, y in zip(a[1], b[1]))
+                               for a, b in zip(before_raw, after_raw))
+                    if not same:
+                        msgs.append(f"op#{k} {op_token(op)} raised but changed the store: {before} -> {w.snapshot()}")
+                        break
+    except Hang:
+        msgs.append(f"op#{k} {op_token(op)} does not terminate")
     return msgs
 
 
@@ -310,6 +345,15 @@ def _wf_messages(w, tag):
                 msgs.append(f"{tag}: node {i} (parent {w.name(p)}) occupies slots {places}, expected exactly one slot of its parent")
         elif occ.get(id(nd)):
             msgs.append(f"{tag}: root {i} sits in slots {occ[id(nd)]}")
+    # the two-element child list (anchor `_BinaryNode__children`) belongs to one node only: no two
+    # nodes may share one list object (checked only while that private field exists)
+    lists = {}
+    for i, nd in enumerate(w.nodes):
+        lst = getattr(nd, "_BinaryNode__children", None)
+        if isinstance(lst, list):
+            if id(lst) in lists:
+                msgs.append(f"{tag}: nodes {lists[id(lst)]} and {i} share one slot list object")
+            lists[id(lst)] = i
     # parent walk terminates
     for i, nd in enumerate(w.nodes):
         x, steps = nd, 0
@@ -396,7 +440,18 @@ def oracle_history(data):
     if not data.get("asrt", 1):
         return []  # C11 is claimed for the default configuration; asrt=0 histories belong to C20
     msgs = []
-    with _Assertions(True):
+    k, op = -1, None
+    try:
+        with _Assertions(True), _Watchdog():
+            msgs += _oracle_history_body(data)
+    except Hang:
+        msgs.append("a call does not terminate (walking parents loops?) in history " + line_of(data))
+    return msgs
+
+
+def _oracle_history_body(data):
+    msgs = []
+    if True:
         w = World(data["n"])
         msgs += _wf_messages(w, "init")
         for k, op in enumerate(data["ops"]):
@@ -560,6 +615,62 @@ def random_history(rng, n, length, fault_rate, invalid_rate=0.2):
     return ops
 
 
+INSTALL_KINDS = [None, ["C", [], "none"], ["T", [], "none"], ["C", [None, None], "none"], ["T", [None, None], "none"],
+                 ["D"], ["S", "k"], ["C", [], "post"], ["T", [], "post"], ["C", [None, None], "post"], ["C", [], "pre"]]
+
+
+def gen_alias_probes():
+    """list-sharing probes: every pair of ways two nodes can have their (empty) slot list (re)installed
+    — constructor, children := [] / () / [None, None] / (None, None), del, sort, failed assignments —
+    followed by writes that go through the list in place (attach by parent, steal, delete)"""
+    def inst(kind, v):
+        if kind is None:
+            return []
+        if kind[0] in ("C", "T"):
+            return [[kind[0], v, list(kind[1]), kind[2]]]
+        if kind[0] == "D":
+            return [["D", v]]
+        return [["S", v, kind[1]]]
+    probes = [
+        [["P", 2, 0, "none"]],
+        [["P", 2, 1, "none"]],
+        [["P", 2, 0, "none"], ["P", 3, 1, "none"]],
+        [["P", 2, 0, "none"], ["P", 3, 0, "none"], ["P", 2, 1, "none"]],
+        [["P", 2, 0, "none"], ["D", 1]],
+        [["P", 2, 0, "none"], ["L", 3, 2, "none"]],
+        [["P", 2, 1, "post"], ["P", 2, 1, "none"], ["C", 0, [], "none"]],
+        [["R", 0, 2, "none"], ["P", 3, 1, "none"], ["P", 3, None, "none"]],
+    ]
+    out = []
+    for k0 in INSTALL_KINDS:
+        for k1 in INSTALL_KINDS:
+            for pr in probes:
+                for order in (0, 1):
+                    pre = inst(k0, 0) + inst(k1, 1) if order == 0 else inst(k1, 1) + inst(k0, 0)
+                    out.append({"cls": "binary", "n": 4, "asrt": 1, "ops": pre + pr})
+    return out
+
+
+def clearing_history(rng, n, length, fault_rate):
+    """histories dominated by `children := [] / ()`, `del children` and attaches through `.parent`"""
+    ops = []
+    for _ in range(length):
+        v = rng.randrange(n)
+        f = rng.choice(["pre", "post"]) if rng.random() < fault_rate else "none"
+        r = rng.random()
+        if r < 0.30:
+            ops.append([rng.choice(["C", "T"]), v, rng.choice([[], [], [None, None]]), f])
+        elif r < 0.38:
+            ops.append(["D", v])
+        elif r < 0.80:
+            ops.append(["P", v, rng.choice([None] + list(range(n))), f])
+        elif r < 0.90:
+            ops.append([rng.choice(["L", "R"]), v, rng.choice([None] + list(range(n))), f])
+        else:
+            ops.append(["C", v, [rng.choice([None] + list(range(n))), rng.choice([None] + list(range(n)))], f])
+    return ops
+
+
 def gen_histories(rng, tier, fault_rate=0.25):
     """random histories on 4-8 nodes, 1-40 ops; returns a list of `data` dicts (asrt=1)"""
     count = 400 if tier == "quick" else 6000
@@ -567,12 +678,22 @@ def gen_histories(rng, tier, fault_rate=0.25):
     for _ in range(count):
         n = rng.randint(4, 8)
         length = rng.randint(1, 40)
-        out.append({"cls": "binary", "n": n, "asrt": 1, "ops": random_history(rng, n, length, fault_rate)})
+        if rng.random() < 0.2:
+            ops = clearing_history(rng, n, length, fault_rate)
+        else:
+            ops = random_history(rng, n, length, fault_rate)
+        out.append({"cls": "binary", "n": n, "asrt": 1, "ops": ops})
     return out
 
 
 def corpus():
     c = []
+    # seeded mutant C11-m3 (shared module-level list for an empty children argument): two nodes cleared with an
+    # empty sequence, then an attach through `.parent` writes the shared list in place
+    c.append({"cls": "binary", "n": 4, "asrt": 1, "ops": [["C", 0, [], "none"], ["C", 1, [], "none"], ["P", 2, 0, "none"],
+                                                          ["P", 3, 1, "none"]]})
+    c.append({"cls": "binary", "n": 4, "asrt": 1, "ops": [["T", 0, [], "none"], ["C", 0, [1, None], "none"], ["T", 2, [], "none"],
+                                                          ["C", 0, [], "none"], ["P", 3, 2, "none"], ["P", 1, 0, "none"]]})
     # D7 witness: a.children = (b, c); b.parent = None; d.left = b; del a.children  (tuple stored as-is before the fix)
     c.append({"cls": "binary", "n": 4, "asrt": 1, "ops": [["T", 0, [1, 2], "none"], ["P", 1, None, "none"], ["L", 3, 1, "none"], ["D", 0]]})
     c.append({"cls": "binary", "n": 4, "asrt": 1, "ops": [["T", 0, [1, 2], "none"], ["L", 3, 1, "none"], ["D", 0], ["T", 0, [], "none"],
@@ -609,6 +730,7 @@ def corpus():
 
 def gen(rng: random.Random, tier: str):
     cases = [mk_case(d, ("corpus",)) for d in corpus()]
+    cases += [mk_case(d, ("alias-probe",)) for d in gen_alias_probes()]
     if tier == "quick":
         exh = gen_exhaustive(3)
     else:
@@ -708,7 +830,8 @@ def selftest():
 RULE = ("one case = one whole history on n fresh BinaryNode objects (user subclass whose 4 hooks raise on demand); "
         "exhaustive part: every store reachable on <=N nodes (found breadth-first on the real code) x every op "
         "(parent/children/left/right/del/sort) x every argument tuple over {None, every node, a non-node} "
-        "(lists and tuples of length 0,1,2,3 and a non-list) x fault in {none,pre,post}; random part: 4-8 nodes, 1-40 ops, "
+        "(lists and tuples of length 0,1,2,3 and a non-list) x fault in {none,pre,post}; list-sharing probes: every pair of ways "
+        "two nodes get an empty slot list installed x in-place writes; random part: 4-8 nodes, 1-40 ops, "
         "~25% faults, ~20% invalid arguments; non-trivial = n>=2 and at least one op names a node argument; "
         "distinct = distinct protocol lines")
 EXHAUSTIVE = {
